@@ -191,6 +191,39 @@ def run(prog, chk):
         [getattr(e, "value", None) for e in sr.args[1].elts] == ["source", "result"]
     chk.ob("R4.sourceresult-fields", "SourceResult", bool(oksr), prog.module("auth_strategy").path, "SourceResult = %s" % unparse(sr))
 
+    # R5: a source fails by raising - the strategy takes any normal return of source.authenticate() for the success and
+    # stops.  So no authenticate() of an AuthSource class may catch an exception and carry on to a normal exit.
+    srcs = [c for c in prog.classes.values() if c.name != "AuthSource" and prog.is_subclass(c.name, "AuthSource") and "authenticate" in c.methods]
+    chk.floor("R5", "AuthSource classes that define authenticate", len(srcs), 3)
+    for c in sorted(srcs, key=lambda c: c.name):
+        m = c.methods["authenticate"]
+        hs = [h for h in walk_no_defs(m.node) if isinstance(h, ast.ExceptHandler)]
+        okh = True
+        detail = "no handler"
+        if hs:
+            fm = Flow(prog, m, implicit=True)
+            for h in hs:
+                inside = set(id(x) for st in h.body for x in ast.walk(st))
+                nodes = [n for n in fm.cfg.nodes if n.id in fm.live and n.ast is not None and id(n.ast) in inside]
+                ids = set(n.id for n in nodes)
+                leaves = [n for n in nodes if n.kind == "return" or (n.kind != "raise" and any(d not in ids for (d, lab) in fm.cfg.succ[n.id] if lab not in ("exc", "raise")))]
+                if leaves or not nodes:
+                    okh = False
+                    detail = "`except %s` returns / carries on at %s" % (unparse(h.type) if h.type is not None else "", fm.where(leaves[0].ast) if leaves else m.loc)
+                else:
+                    detail = "%d handler(s), all re-raise" % len(hs)
+        chk.ob("R5.source-fails-by-raising", "%s.authenticate" % c.name, okh, m.loc, detail)
+
+    # R6: the verdict an attempt reports is the server's answer to *that* attempt: the handler that creates its own
+    # completion event makes a fresh one for every request (an event left set by an earlier attempt answers at once)
+    sa = prog.func("AuthOnlyHandler.send_auth_request")
+    fsa = Flow(prog, sa, implicit=False)
+    waits = [n for (n, c_) in fsa.nodes_with_call(name="self.wait_for_response")]
+    fresh = fsa.nodes(lambda n: n.kind == "stmt" and isinstance(n.ast, ast.Assign) and unparse(n.ast.targets[0]) == "self.auth_event" and M.is_call(n.ast.value, name="threading.Event"))
+    okf = len(waits) == 1 and bool(fresh) and fsa.dominated(waits, guard_nodes=fresh, complete=True) and [unparse(a) for a in waits[0].ast.value.args if isinstance(waits[0].ast, ast.Return)] in ([], ["self.auth_event"])
+    chk.ob("R6.fresh-event-per-attempt", "AuthOnlyHandler.send_auth_request", okf, sa.loc,
+           "self.auth_event = threading.Event() on every path before the wait (%d assignment(s))" % len(fresh))
+
 
 def _inside(node, anc):
     n = node
